@@ -266,6 +266,12 @@ func c9DecoderScript(c *Ctx, w *c09Watch, slot int, g c9Gen, sample bool) {
 					// finding S2 candidates: More() on a stream that ends inside an array/object
 					kind = "decoder-more-true-at-truncated-end"
 				}
+				if !m1 && m2 && !afterErr && !stdjson.Valid(stream) {
+					// finding S7: More() at an object VALUE position of a malformed stream whose next significant bytes are
+					// ':' and then a closing delimiter ({"a":] or {"a":}): the classic decoder peeks the ':' (true), v1's
+					// PeekKind skips it and reports the closer (false).  The next Token fails in both.
+					kind = "decoder-more-false-before-misplaced-closer"
+				}
 				report(kind, map[string]any{"v1": m1, "classic": m2})
 				return
 			}
@@ -372,19 +378,29 @@ func c9EncoderScript(c *Ctx, w *c09Watch, slot int, g c9Gen) {
 			c.Case("enc:"+strings.Join(script, " ")+"|"+c9D(va), true)
 			out1, out2 := w1.buf.Bytes(), w2.buf.Bytes()
 			if (err1 == nil) != (err2 == nil) || !bytes.Equal(out1, out2) {
-				kind := "encoder-mismatch" + c9FFFD(out1, out2)
-				if kind == "encoder-mismatch" && err1 == nil && err2 == nil {
-					// finding F11: with SetEscapeHTML(false) the classic package copies U+2028/U+2029 found in RawMessage /
-					// MarshalJSON output verbatim, v1 escapes them.  Attributed only if respelling makes the outputs equal.
-					re := bytes.ReplaceAll(bytes.ReplaceAll(out2, []byte("\u2028"), []byte(c09BU+"2028")), []byte("\u2029"), []byte(c09BU+"2029"))
-					if bytes.Equal(re, out1) {
-						kind += "[raw-u2028-with-escapehtml-off]"
+				// Attribution to the listed spelling findings, each alone and then COMBINED (one value can hold both an
+				// invalid-UTF-8 Go string, F1, and a RawMessage with a raw U+2028, F11).  The outputs must become exactly
+				// equal after respelling; a case that needs both is filed under both kinds.
+				kinds := []string{"encoder-mismatch"}
+				if err1 == nil && err2 == nil {
+					u2028 := func(b []byte) []byte {
+						return bytes.ReplaceAll(bytes.ReplaceAll(b, []byte("\u2028"), []byte(c09BU+"2028")), []byte("\u2029"), []byte(c09BU+"2029"))
+					}
+					switch {
+					case c9FFFD(out1, out2) != "":
+						kinds = []string{"encoder-mismatch[invalid-utf8-fffd-spelling]"}
+					case bytes.Equal(u2028(out2), out1):
+						kinds = []string{"encoder-mismatch[raw-u2028-with-escapehtml-off]"}
+					case bytes.Contains(out2, []byte(c09BU+"fffd")) && bytes.Equal(u2028(c9RespellFFFD(out2)), out1):
+						kinds = []string{"encoder-mismatch[invalid-utf8-fffd-spelling]", "encoder-mismatch[raw-u2028-with-escapehtml-off]"}
 					}
 				}
 				d := map[string]any{"script": strings.Join(script, " "), "value": c9Short(c9D(va)), "type": c9Short(desc), "v1_err": fmt.Sprint(err1), "classic_err": fmt.Sprint(err2),
 					"v1_out": c9Short(string(out1)), "classic_out": c9Short(string(out2)), "writer_fails_after": left}
-				c9Dbg(kind, d)
-				c.Violate(kind, "v1.Encoder", []byte(strings.Join(script, " ")+"|"+c9D(va)), d)
+				for _, kind := range kinds {
+					c9Dbg(kind, d)
+					c.Violate(kind, "v1.Encoder", []byte(strings.Join(script, " ")+"|"+c9D(va)), d)
+				}
 				return
 			}
 		case op < 7:
